@@ -129,7 +129,7 @@ func c31(r *sim.R) *sim.Violation {
 						return simfs.Action{}
 					}
 				}
-				c := &call{client: ci, kind: kind, start: sc.Steps, maxHeldMin: K}
+				c := &call{client: ci, kind: kind, start: sc.StepCount(), maxHeldMin: K}
 				if len(sem) < c.maxHeldMin {
 					c.maxHeldMin = len(sem)
 				}
@@ -141,7 +141,7 @@ func c31(r *sim.R) *sim.Violation {
 				a.KeepAlive = keepAlive
 				c.res, c.err = engine.NewQueryRunner("/sim/"+alias+"/db", engine.WithMaxConcurrent(sem)).Run(ctx, a)
 				cancel()
-				c.end = sc.Steps
+				c.end = sc.StepCount()
 				mu.Lock()
 				delete(pending, c)
 				delete(executing, ci)
